@@ -21,7 +21,7 @@ MC_CFG = '''SPECIFICATION Spec
 CONSTANTS
   MaxTerms = %(N)d
   MaxLen = %(L)d
-INVARIANT L1IsL0UnlessSpelling
+INVARIANT L1IsL0UnlessDeviation
 INVARIANT RestrictionRefines
 INVARIANT TilingCovers
 CHECK_DEADLOCK FALSE
@@ -131,7 +131,7 @@ def observe_case(spec):
             ob = O.parse_outcome(pb, data, positions=True)
             oc = O.parse_outcome(pc, data, positions=True)
             r = dict(base)
-            r.update({'mode': 'refine', 'toks': [], 'among': [[]], 'err': -1, 'ecls': '', 'eline': 0, 'ecol': 0,
+            r.update({'mode': 'refine', 'toks': [], 'among': [a for a in amongs if a] or [[]], 'err': -1, 'ecls': '', 'eline': 0, 'ecol': 0,
                       'basicacc': ob['out'] == 'accept', 'ctxacc': oc['out'] == 'accept',
                       'same': ob.get('tree') == oc.get('tree'), 'overlap': bool(overlap)})
             case['runs'].append(r)
@@ -174,6 +174,21 @@ def specs(tier, rng, seed_bias=None):
         if i % 2 == 0:
             sp['stmts'] = random_stmts(terms, rng)
         out.append(sp)
+    # directed terminal sets (hunted defects 33, 34): a string embedded in a regexp that sorts AFTER another match; a regexp
+    # whose lookaround fails in context; a keyword whose regexp is not acceptable in the parser state (contextual subset)
+    T = lambda *rows: [list(r) + [0, False][len(r) - 2:] for r in rows]
+    for terms, stmts, texts in (
+        (T(('KA_A', 'A'), ('KB_X_AI', 'X_AI'), ('R_DOT', 'DOT')), None, ['a', 'ab', 'aA', 'ba', 'A']),
+        (T(('KA_A', 'A'), ('KB_X_AI', 'X_AI'), ('R_DOT', 'DOT')), [('KA_A',), ('KB_X_AI', 'R_DOT')], ['a', 'Ab', 'aAb']),
+        (T(('K_IF', 'IF'), ('N_NUM', 'NUM'), ('R_X_LOWNB', 'X_LOWNB')), None, ['1if', 'if1', 'a1if', 'if 1', '11if1']),
+        (T(('K_IF', 'IF'), ('N_NUM', 'NUM'), ('R_X_LOWB', 'X_LOWB'), ('D_DOT', 'DOT')), None, ['if1', 'if', '1if', 'ifa1']),
+        (T(('K_IF', 'IF'), ('KQ_X_IFEQ', 'X_IFEQ'), ('E_EQ', 'EQ'), ('P_PLUS', 'PLUS'), ('R_LOW', 'LOW')),
+         [('K_IF', 'E_EQ', 'R_LOW'), ('KQ_X_IFEQ', 'R_LOW', 'P_PLUS')], ['if=a', 'if=a+', 'if=aif=b+', 'if=b+if=a', 'if=']),
+    ):
+        sp = {'terms': [tuple(t) for t in terms], 'texts': texts, 'family': 'F_term:directed'}
+        if stmts:
+            sp['stmts'] = stmts
+        out.append(sp)
     # more than 100 terminals: one scanner built from several alternations (where the interpreter limits groups)
     for j in range(3 if tier == 'quick' else 12):
         terms = []
@@ -187,8 +202,13 @@ def specs(tier, rng, seed_bias=None):
 
 
 def known_matcher(fnd, case):
-    if fnd.get('match', {}).get('kind') == 'keyword-spelling':
+    k = fnd.get('match', {}).get('kind')
+    if k == 'keyword-spelling':
         return case.get('clause', '') == 'keyword-decided-on-spelling@known'
+    if k == 'embedded-order':
+        return case.get('clause', '').endswith('@known-embedded')
+    if k == 'keyword-lost-in-context':
+        return case.get('clause', '').endswith('@keyword-lost-in-context')
     return False
 
 
@@ -269,6 +289,16 @@ def mc_lexer(ev, tier):
         ev.add_tlc(name, res, 'design')
         if not res.ok:
             raise C.MachineryFailure('%s: design-level invariant %s violated' % (name, res.violated))
+    # model sensitivity: the three deviations recorded as known findings are refutations of the stronger statements
+    for key, spec_, inv, par in (('model_finds_spelling_deviation', 'Spec', 'L1IsL0', dict(N=2, L=2)),
+                                 ('model_finds_embedded_order_deviation', 'SpecFlat', 'L1IsL0UnlessSpelling', dict(N=3, L=2)),
+                                 ('model_finds_keyword_lost_in_context', 'SpecFlat', 'RestrictionRefines', dict(N=4, L=2))):
+        cfg = 'SPECIFICATION %s\nCONSTANTS\n  MaxTerms = %d\n  MaxLen = %d\nINVARIANT %s\nCHECK_DEADLOCK FALSE\n' % (spec_, par['N'], par['L'], inv)
+        r2 = C.tlc('MC_Lexer', cfg, timeout=1500)
+        C.tlc_must_run(r2, key)
+        ev.cov['binding_selftest'][key] = bool(r2.violated)
+        if not r2.violated:
+            raise C.MachineryFailure('MC_Lexer accepts %s: the model is vacuous there' % inv)
 
 
 def body(tier, seed, replay):
@@ -321,7 +351,7 @@ def selftest(ev, cases, tmp):
     res = C.tlc('TraceLex', TRACE_CFG, env={'VERIF_BATCH': path, 'VERIF_WHICH': 'C07'}, continue_=True, workers=2, timeout=600)
     C.tlc_must_run(res, 'selftest')
     got = {(int(v[0]), int(v[1])) for v in res.verdicts if not v[2].startswith('drift')}
-    ev.cov['binding_selftest'] = {'corrupted': len(expect), 'rejected': len(got & expect)}
+    ev.cov['binding_selftest'].update({'corrupted': len(expect), 'rejected': len(got & expect)})
     if not expect <= got:
         raise C.MachineryFailure('binding self-test: corrupted %s, TLC rejected %s' % (sorted(expect), sorted(got)))
 
